@@ -63,7 +63,7 @@ PROP = dict(
     bin="c12",
     run_targets=["Run/RunC12.vo"],
     prop_targets=["Properties/C12.vo"],
-    cases=dict(quick=5000, thorough=40000),
+    cases=dict(quick=5000, thorough=30000),
     level="proof",
     rule="each case = algorithm (Greedy | KarmarkarKarp) x weight family (small alphabet, random, ties, one dominant, "
          "zeros, all equal, tiny incl. empty, large values up to 2^40, two values, powers of two, one negative weight) "
@@ -106,7 +106,7 @@ MANIFEST = dict(
          "(exact partitions; sorted loads for k-way KK) and checkers proved equivalent to the property judge every output; "
          "the literals the models hard-code are re-read from the source on every run (C12_source_literals).",
     design_ref="DESIGN.md §7 C12",
-    note="Trusted: Coq kernel; model<->code tie = translator (12 literals) + differential runs (5k/50k cases, i64 and f64); "
+    note="Trusted: Coq kernel; model<->code tie = translator (12 literals) + differential runs (5k/30k cases, i64 and f64); "
          "BinaryHeap/sort/min_by library contracts as listed; no axioms.",
     technique="Coq proof (potential-function invariants over the differencing steps and their back-tracking; permutation "
               "invariance of LPT) + translator + model/implementation correspondence + certified checkers",
